@@ -133,6 +133,13 @@ def make_ob(tname, opc, op, ctx, fmt, hi, tier, lines=False):
             return None
         if ctx and name in ("CALL_FUNCTION_KW", "CALL_KW") and not (x >= 1):
             return None
+        if name == "SET_LINENO":
+            # the listing of SET_LINENO-era code takes the line of the *next* instruction from SET_LINENO; in compiler
+            # output the line table says the same, in this synthetic code object (empty line table) it cannot: not valid code
+            # (real SET_LINENO code is covered by the corpus obligations)
+            return None
+        if use_src and op in getattr(opc, "hasconst", ()) and not (x < len(CONSTS)):
+            return None   # (3.11's dis does not resolve KW_NAMES at all, so it does not reject a missing constant either)
         if not use_src:
             for cat, table in (("hasconst", CONSTS), ("hasname", NAMES), ("haslocal", VARNAMES), ("hasfree", CELLS + FREES),
                                ("hascompare", getattr(opc, "cmp_op", ()))):
